@@ -33,6 +33,21 @@ def cfgs_scalar_sets(tier, inc):
     return res
 
 
+def cfgs_with_O0(tier, inc):
+    """default configurations + -O0 builds (at -O0 an aligned-only intrinsic maps to the aligned instruction literally)"""
+    import run
+    out = run.default_configs(tier)
+    for m in ([], ["SSE2"], ["SSE4_1"], ["AVX2"], ["AVX512VL", "AVX512BW"], list(C.EVERYTHING)):
+        out.append(C.Config(m, cxx="g++", std="c++11", opt="-O0"))
+        if tier != "quick":
+            out.append(C.Config(m, cxx="clang++", std="c++17", opt="-O0"))
+    seen, res = set(), []
+    for c in out:
+        if c.name not in seen:
+            seen.add(c.name); res.append(c)
+    return res
+
+
 PROPS = {
     "C01": {"id": "C01", "source": "c01.cpp", "files": INT_VEC_FILES, "min_configs": {"quick": 8, "thorough": 30},
             "configs": cfgs_with_san, "ub_is_violation": True, "digest_binding": True},
@@ -44,10 +59,24 @@ PROPS = {
     "C05": {"id": "C05", "source": "c05.cpp", "files": INT_VEC_FILES, "min_configs": {"quick": 8, "thorough": 30}, "scale": {"quick": 300, "thorough": 300}},
     "C03": {"id": "C03", "source": "c03.cpp", "files": INT_VEC_FILES + FLT_VEC_FILES, "min_configs": {"quick": 8, "thorough": 30}, "optional_classes": ["noncanonical_representation_seen"],
             "max_success": {"quick": 1500, "thorough": 20000}},
+    "C08": {"id": "C08", "source": "c08.cpp", "files": INT_VEC_FILES + FLT_VEC_FILES, "min_configs": {"quick": 8, "thorough": 30}, "configs": cfgs_with_O0,
+            "optional_classes": ["range_ends_at_guard_page", "range_starts_after_guard_page", "wild_index_in_inactive_lane", "n_zero_pointer_into_guard_page"]},
+    "C09": {"id": "C09", "source": "c08.cpp", "cxxflags": ["-DVP_PROP_C09"], "files": INT_VEC_FILES + FLT_VEC_FILES, "min_configs": {"quick": 8, "thorough": 30}, "configs": cfgs_with_O0,
+            "optional_classes": ["unaligned_address", "negative_index", "ordinary"]},
     "C02": {"id": "C02", "source": "c02.cpp", "files": INT_VEC_FILES + FLT_VEC_FILES, "min_configs": {"quick": 8, "thorough": 30}, "digest_binding": True},
 }
 
 MANIFEST_TEXT = {
+    "C08": {
+        "technique": "property-based testing: enumerated (every n in 0..width+2 x every element offset in a 64-element window, every lane index) + rapidcheck memory operations against a byte-array memory model with sentinels, under a signal guard, per build configuration incl. -O0",
+        "level": "Generated-input search over (operation form, n, offset, payload, indices) for load/aligned_load/store/aligned_store (run-time and compile-time counts), gather/scatter (negative and positive, pairwise distinct active indices), extract<I>/insert<I>, to_array and the array constructor on all 40 vector types; oracle: loaded lanes = p[0..min(n,w)) then zeros; after a store/scatter the two-page sentinel buffer differs from its pre-image exactly in the addressed elements; faults are outcomes (an aligned-only instruction in an unaligned form shows up as SIGSEGV, -O0 builds map intrinsics literally).",
+        "note": "Trusted: the byte-array model, host CPU, compilers. Aligned forms are only given alignof(vector)-aligned addresses (documented precondition). Scatter cases with duplicate active indices are not generated (indices are made distinct by construction).",
+    },
+    "C09": {
+        "technique": "property-based testing / fault injection by placement: the C08 operations generated with the addressed element range flush against PROT_NONE guard pages (ending at a page end, starting at a page start, n=0 with the pointer inside the guard page, wild indices in inactive gather/scatter lanes); any signal or changed sentinel outside the addressed bytes fails",
+        "level": "Generated-input search: every n in 0..width+2 for every load/store/gather/scatter form and vector type with the buffer placed against inaccessible pages on either side, plus rapidcheck payloads/indices; oracle: no SIGSEGV/SIGBUS (signal guard turns a fault into a failing Case) and all sentinel bytes outside [p, p+min(n,w)) unchanged.",
+        "note": "Trusted: mmap/mprotect guard pages, host CPU fault behaviour (what this CPU does for masked instructions), compilers. Over-reads that stay inside the same page as addressed bytes (e.g. a full aligned load for aligned_load(p,3)) cannot fault and are not observable by this check; over-writes always are.",
+    },
     "C03": {
         "technique": "model-based (stateful) property testing: rapidcheck-generated and enumerated command histories over four mask registers, compared with an array<bool,N> model through every observer after every command; histories shrink as one value",
         "level": "Generated-history search: 16 commands (& | ^ && || &= |= ^= ! insert<I> Mask(bool) Mask(array) =bool Mask(Vector(m)) set_bits(m)!=0 Mask(vector of special lanes)) on all 40 mask types in every configuration; after every command every register is read through primitive decode, extract<I> for all I, count/any/all/none, ==/!= against every register, Vector(mask), set_bits(mask). Enumerated: all 2^N patterns for N<=16 with insert<I>(m,false/true), every special lane value (-0.0, NaN, subnormal, single non-zero byte ...) in every lane for mask(vector).",
